@@ -9,7 +9,7 @@
            "datastruct/elasticarray.c": "contracts/c13_elasticarray_bounds.spec"},
  "defines": ["VERIF_HALLOC", "HU_CAP=32", "HEAP_RA_CAPSLOTS=64", "HEAP_RA_OLDCAPSLOTS=32"],
  "models": ["models/heap_realloc.c", "models/heap_memcpy.c"],
- "cbmc": [],
+ "cbmc": ["--arrays-uf-always"],
  "timeout": 900,
  "assumptions": ["abstract user of harness/C13/hu_model.h (elements are pointers into one object pool; callbacks compute the record id from the pointer)",
                  "object-size parameter: the pointer-list buffer holds at most HU_CAP = 32 slots (nelems is symbolic up to that); no loop is unwound, the sift loop is closed by its loop contract",
